@@ -1,25 +1,52 @@
 """C11 -- binary-to-text and wire codecs are exact inverses on their whole domain."""
 from framework import Func
 from bip_utils import Base58Encoder, Base58Decoder, Base58Alphabets
+from bip_utils import Base58XmrEncoder, Base58XmrDecoder
+from bip_utils.utils.misc import BytesUtils, IntegerUtils
+from modeldrv import Z, T
+from bip_utils.bech32.bech32_base import Bech32BaseUtils
+from bip_utils.utils.misc import Base32Decoder, Base32Encoder
+from bip_utils import SS58Decoder, SS58Encoder
+import hashlib
+from bip_utils.utils.misc import CborIndefiniteLenArrayDecoder, CborIndefiniteLenArrayEncoder
+from bip_utils.substrate.scale import (SubstrateScaleBytesEncoder, SubstrateScaleCUintEncoder, SubstrateScaleU8Encoder,
+                                       SubstrateScaleU16Encoder, SubstrateScaleU32Encoder, SubstrateScaleU64Encoder,
+                                       SubstrateScaleU128Encoder, SubstrateScaleU256Encoder)
 
 ALPHS = [Base58Alphabets.BITCOIN, Base58Alphabets.RIPPLE]
 
 MANIFEST = {
-    "text": "Coq theorems (all byte strings / all strings, unbounded) for the codecs' round trips and canonicity over "
-            "constants regenerated from the source, plus extracted-model/implementation correspondence on exhaustive "
-            "small domains and random inputs.",
-    "note": "Hash functions are oracles with a length hypothesis; Base32/CBOR delegated to stdlib/cbor2 are modelled "
-            "from their RFCs.",
-    "technique": "Coq proof (induction over radix digit lists) + generated-constant obligations + extracted-model "
-                 "differential run",
+    "text": "Coq theorems (all byte strings / all strings / all integers in range, unbounded sizes) for every codec of the "
+            "property: decode(encode(x)) = x, the encoded text is the standard one, and -- where it holds -- canonicity and "
+            "exact acceptance of the decoder (Base58, Base58Check, Monero block Base58, Bech32 ConvertBits 8<->5, Base32 with "
+            "custom alphabets and without padding, hex, IntegerUtils/BytesUtils, SS58 for all 16384 formats, SCALE uint/"
+            "compact/bytes against model decoders, CBOR indefinite-length array), over constants regenerated from the source; "
+            "plus extracted-model/implementation correspondence on exhaustive small domains, threshold values and mutated "
+            "inputs, and direct checks of the property against independent reference implementations.",
+    "note": "sha256 / blake2b-512 are oracles with an output-length hypothesis; base64.b32encode/b32decode, binascii hex, "
+            "int(.., 2) and cbor2's integer coding are modelled from RFC 4648 / RFC 8949 / the CPython sources and tied "
+            "by correspondence only. Known finding: the CBOR decoder rejects the encoder's output for the empty array.",
+    "technique": "Coq proof (induction over radix digit lists, loop invariants for the bit regrouping, vm_compute sweeps "
+                 "lifted with forallb_forall for tables and the SS58 format packing) + generated-constant obligations + "
+                 "extracted-model differential run",
     "ref": "7/C11",
 }
 
-RULE = ("Byte strings: exhaustive for lengths 0..2 (thorough; quick: 0..1 plus a sample of length 2), random "
-        "lengths up to 200 with leading-zero runs; strings: random over the alphabet, mutated encodings, "
-        "foreign characters.")
-TRUSTED = ["sha256 is an oracle (hashlib); Base58Check theorems assume only |sha256 x| = 32"]
-ASSUMPTIONS = ["hash output length 32 bytes"]
+RULE = ("Per codec: byte strings exhaustively for lengths 0..1 (quick) / 0..2 (thorough) through every encoder; decoders on "
+        "all alphabet strings of length 0..2 and every single character 0..255 in the decisive position; every length "
+        "mod block size (Monero 1..8(+8k), Base32 0..15, ConvertBits 5-bit strings of length 0..2 exhaustively); all "
+        "integers +-1/+-2 around every threshold (256^k, 2^6/2^14/2^30/2^536, CBOR 24/2^8/2^16/2^32/2^64, SS58 63/64/16383); "
+        "all SS58 formats -2..16389 through Encode; random inputs up to 200 bytes with leading-zero runs; a separate "
+        "malformed stream (substitute, foreign/Unicode look-alike character, insert, delete, truncate, bad checksum, "
+        "wrong length, non-canonical padding/prefix).")
+TRUSTED = ["sha256 and blake2b-512 are oracles answered by hashlib; theorems assume only their output length (32 / 64) "
+           "and that they return bytes",
+           "CPython's base64.b32encode/b32decode, binascii.hexlify/unhexlify, int(text, 2), str.translate/maketrans/"
+           "rstrip/zfill and cbor2.dumps/loads for integers are represented by hand-written models of their documented "
+           "behaviour (RFC 4648, RFC 8949, CPython 3.12 sources); tied by the correspondence run only",
+           "SCALE decoders are model decoders (the library has encoders only)"]
+ASSUMPTIONS = ["sha256 output length 32 bytes", "blake2b-512 output length 64 bytes"]
+BUDGET = {"quick": 150, "thorough": 1500}
 
 
 def rt_b58(a):
@@ -58,6 +85,923 @@ FUNCS = {
 }
 
 
+# ------------------------------------------------------------------ Monero block Base58
+B58 = "123456789ABCDEFGHJKLMNPQRSTUVWXYZabcdefghijkmnopqrstuvwxyz"
+
+
+def _xmr_width(d):
+    """Least e with 58^e >= 256^d (the published block widths 0,2,3,5,6,7,9,10,11)."""
+    e = 0
+    while 58 ** e < 256 ** d:
+        e += 1
+    return e
+
+
+def xmr_ref_encode(b):
+    """Monero Base58 from its definition: 8-byte blocks, fixed-width big-endian base-58 digits."""
+    out = []
+    for i in range(0, len(b), 8):
+        blk = b[i:i + 8]
+        v, w = int.from_bytes(blk, "big"), _xmr_width(len(blk))
+        out.append("".join(B58[(v // 58 ** (w - 1 - k)) % 58] for k in range(w)))
+    return "".join(out)
+
+
+def xmr_blocks(s):
+    """(block string, byte width) list as the format defines it, or None when the length is impossible."""
+    widths = {_xmr_width(d): d for d in range(9)}
+    full, last = divmod(len(s), 11)
+    if last not in widths:
+        return None
+    bl = [(s[i * 11:(i + 1) * 11], 8) for i in range(full)]
+    if last:
+        bl.append((s[full * 11:], widths[last]))
+    return bl
+
+
+def xmr_is_canonical(s):
+    bl = xmr_blocks(s)
+    if bl is None or any(c not in B58 for c in s):
+        return False
+    for t, d in bl:
+        v = 0
+        for c in t:
+            v = v * 58 + B58.index(c)
+        if v >= 256 ** d:
+            return False
+    return True
+
+
+def rt_xmr(a):
+    b, = a
+    s = Base58XmrEncoder.Encode(b)
+    if s != xmr_ref_encode(b):
+        return "Monero Base58 of %s is %r, the standard encoding is %r" % (b.hex(), s, xmr_ref_encode(b))
+    d = Base58XmrDecoder.Decode(s)
+    return None if d == b else "Monero Base58 decode(encode(b)) = %s != b" % d.hex()
+
+
+def canon_xmr(a):
+    # every accepted string re-encodes to itself (blocks whose value overflows the block length -- the former defect
+    # F2 -- must be rejected with ValueError, which the correspondence with the model checks)
+    s, = a
+    try:
+        d = Base58XmrDecoder.Decode(s)
+    except ValueError:
+        return "canonical string %r rejected" % s if xmr_is_canonical(s) else None
+    e = Base58XmrEncoder.Encode(d)
+    return None if e == s else "accepted string %r decodes to %s which re-encodes to %r" % (s, d.hex(), e)
+
+
+FUNCS.update({
+    "xmr_encode": Func(model=lambda m, a: m.call("xmr_encode", a[0]),
+                       impl=lambda a: Base58XmrEncoder.Encode(a[0]), direct=rt_xmr),
+    "xmr_decode": Func(model=lambda m, a: m.call("xmr_decode", a[0]),
+                       impl=lambda a: Base58XmrDecoder.Decode(a[0]), direct=canon_xmr),
+})
+
+
+def gen_xmr(ctx):
+    rng = ctx.rng
+    ctx.run("xmr_encode", [b""], "len0", trivial=True)
+    ctx.run("xmr_decode", [""], "len0", trivial=True)
+    for x in range(256):
+        ctx.run("xmr_encode", [bytes([x])], "len1")
+    for x in (range(65536) if not ctx.quick else list(range(0, 512)) + [rng.randrange(65536) for _ in range(500)]):
+        ctx.run("xmr_encode", [x.to_bytes(2, "big")], "len2")
+    # every block length 1..8 and the lengths around multiples of 8; boundary values of each width
+    for n in list(range(1, 26)) + [63, 64, 65, 69, 72]:
+        for fill in (0, 1, 0xFF):
+            ctx.run("xmr_encode", [bytes([fill]) * n], "blocklen")
+        ctx.run("xmr_encode", [bytes(n - 1) + b"\x01"], "blocklen")
+        ctx.run("xmr_encode", [b"\x01" + bytes(n - 1)], "blocklen")
+    for d in range(1, 9):
+        w = _xmr_width(d)
+        for v in (0, 1, 57, 58, 58 ** (w - 1) - 1, 58 ** (w - 1), 256 ** d - 1, 256 ** (d - 1), 256 ** (d - 1) - 1):
+            if 0 <= v < 256 ** d:
+                ctx.run("xmr_encode", [v.to_bytes(d, "big")], "blockval")
+                ctx.run("xmr_encode", [bytes(8) + v.to_bytes(d, "big")], "blockval")
+        # decode side: block strings at and beyond the canonical limit (the latter are the F2 class; the model is
+        # the code as it is, so model == implementation there and C11's direct check does not apply)
+        for v in (0, 1, 256 ** d - 1, 256 ** d, 58 ** w - 1):
+            t = "".join(B58[(v // 58 ** (w - 1 - k)) % 58] for k in range(w))
+            ctx.run("xmr_decode", [t], "blockval")
+            ctx.run("xmr_decode", ["1" * 11 + t], "blockval")
+    # all strings of length 0..2 over the alphabet, and every impossible length
+    for c in B58:
+        ctx.run("xmr_decode", [c], "len1")
+        for d in (B58 if not ctx.quick else rng.sample(B58, 10)):
+            ctx.run("xmr_decode", [c + d], "len2")
+    for n in range(0, 36):
+        ctx.run("xmr_decode", ["1" * n], "lengths")
+        ctx.run("xmr_decode", ["z" * n], "lengths")
+        ctx.run("xmr_decode", ["".join(rng.choice(B58) for _ in range(n))], "lengths")
+    ctx.note_exhaustive("Monero Base58 encode: all byte strings of length 0..1 (and 2 in thorough); decode: all "
+                        "alphabet strings of length 0..1 (2 in thorough), all lengths 0..35")
+    for _ in range(ctx.n(300, 5000)):
+        b = rand_bytes(rng, 140)
+        ctx.run("xmr_encode", [b], "rand")
+        s = Base58XmrEncoder.Encode(b)
+        ctx.run("xmr_decode", [s], "valid")
+        t = list(s)
+        k = rng.randrange(5)
+        if t and k == 0:
+            t[rng.randrange(len(t))] = rng.choice(B58)
+        elif t and k == 1:
+            t[rng.randrange(len(t))] = rng.choice("0OIl+/ éK\U0001F600")
+        elif k == 2:
+            t.insert(rng.randrange(len(t) + 1), rng.choice(B58))
+        elif t and k == 3:
+            del t[rng.randrange(len(t))]
+        else:
+            t = t[:rng.randrange(len(t) + 1)]
+        ctx.run("xmr_decode", ["".join(t)], "mutated")
+
+
+# ------------------------------------------------------------------ IntegerUtils / BytesUtils
+ENDS = ["little", "big"]
+
+
+def d_int_to_bytes(a):
+    v, w, big = a
+    try:
+        b = IntegerUtils.ToBytes(v, w or None, ENDS[big])
+    except OverflowError:
+        fits = v >= 0 and (w == 0 or v < 256 ** w)
+        return "ToBytes(%d, %d) raised OverflowError although the value fits" % (v, w) if fits else None
+    if v < 0 or (w and v >= 256 ** w):
+        return "ToBytes(%d, %d) returned %s for a value that does not fit" % (v, w, b.hex())
+    want = w or max(1, (v.bit_length() + 7) // 8)
+    if len(b) != want:
+        return "ToBytes(%d, %d) has %d bytes, expected %d" % (v, w, len(b), want)
+    # value from the positional definition, not from int.from_bytes
+    digs = b if big else b[::-1]
+    val = 0
+    for x in digs:
+        val = val * 256 + x
+    if val != v or BytesUtils.ToInteger(b, ENDS[big]) != v:
+        return "ToInteger(ToBytes(%d)) = %d" % (v, BytesUtils.ToInteger(b, ENDS[big]))
+    return None
+
+
+def d_bytes_to_int(a):
+    b, big = a
+    v = BytesUtils.ToInteger(b, ENDS[big])
+    if len(b) == 0:
+        return None if v == 0 else "ToInteger(b'') = %d" % v
+    r = IntegerUtils.ToBytes(v, len(b), ENDS[big])
+    return None if r == b else "ToBytes(ToInteger(b), len(b)) = %s != b" % r.hex()
+
+
+def d_bytes_number(a):
+    v, = a
+    k = IntegerUtils.GetBytesNumber(v)
+    if v <= 0:
+        return None if k == 1 else "GetBytesNumber(%d) = %d" % (v, k)
+    ok = k >= 1 and v < 256 ** k and (k == 1 or v >= 256 ** (k - 1))
+    return None if ok else "GetBytesNumber(%d) = %d is not the minimal width" % (v, k)
+
+
+def d_int_binstr(a):
+    n, pad = a
+    s = IntegerUtils.ToBinaryStr(n, pad)
+    want = "".join("1" if (n >> i) & 1 else "0" for i in range(max(n.bit_length(), 1) - 1, -1, -1))
+    want = "0" * (pad - len(want)) + want
+    if s != want:
+        return "ToBinaryStr(%d, %d) = %r, expected %r" % (n, pad, s, want)
+    r = IntegerUtils.FromBinaryStr(s)
+    return None if r == n else "FromBinaryStr(ToBinaryStr(%d, %d)) = %d" % (n, pad, r)
+
+
+def d_bytes_binstr(a):
+    b, pad = a
+    s = BytesUtils.ToBinaryStr(b, pad)
+    if len(b) == 0:
+        return None
+    r = BytesUtils.FromBinaryStr(s, 2 * len(b))
+    return None if r == b else "FromBinaryStr(ToBinaryStr(b, %d), %d) = %s != b" % (pad, 2 * len(b), r.hex())
+
+
+def d_hex(a):
+    b, = a
+    s = BytesUtils.ToHexString(b)
+    want = "".join("0123456789abcdef"[x >> 4] + "0123456789abcdef"[x & 15] for x in b)
+    if s != want:
+        return "ToHexString(%s) = %r" % (b.hex(), s)
+    for t in (s, s.upper()):
+        r = BytesUtils.FromHexString(t)
+        if r != b:
+            return "FromHexString(%r) = %s != b" % (t, r.hex())
+    return None
+
+
+def d_unhex(a):
+    s, = a
+    try:
+        b = BytesUtils.FromHexString(s)
+    except ValueError:
+        return None
+    e = BytesUtils.ToHexString(b)
+    return None if e == s.lower() else "accepted hex %r re-encodes to %r" % (s, e)
+
+
+FUNCS.update({
+    "int_to_bytes": Func(model=lambda m, a: m.call("int_to_bytes", Z(a[0]), a[1], a[2]),
+                         impl=lambda a: IntegerUtils.ToBytes(a[0], a[1] or None, ENDS[a[2]]), direct=d_int_to_bytes),
+    "bytes_to_int": Func(model=lambda m, a: m.call("bytes_to_int", a[0], a[1]),
+                         impl=lambda a: BytesUtils.ToInteger(a[0], ENDS[a[1]]), direct=d_bytes_to_int),
+    "bytes_number": Func(model=lambda m, a: m.call("bytes_number", Z(a[0])),
+                         impl=lambda a: IntegerUtils.GetBytesNumber(a[0]), direct=d_bytes_number),
+    "int_to_binstr": Func(model=lambda m, a: m.call("int_to_binstr", a[0], a[1]),
+                          impl=lambda a: IntegerUtils.ToBinaryStr(a[0], a[1]), direct=d_int_binstr),
+    "int_from_binstr": Func(model=lambda m, a: m.call("int_from_binstr", a[0]),
+                            impl=lambda a: IntegerUtils.FromBinaryStr(a[0])),
+    "bytes_to_binstr": Func(model=lambda m, a: m.call("bytes_to_binstr", a[0], a[1]),
+                            impl=lambda a: BytesUtils.ToBinaryStr(a[0], a[1]), direct=d_bytes_binstr),
+    "bytes_from_binstr": Func(model=lambda m, a: m.call("bytes_from_binstr", a[0], a[1]),
+                              impl=lambda a: BytesUtils.FromBinaryStr(a[0], a[1])),
+    "hex_encode": Func(model=lambda m, a: m.call("hex_encode", a[0]),
+                       impl=lambda a: BytesUtils.ToHexString(a[0]), direct=d_hex),
+    "hex_decode": Func(model=lambda m, a: m.call("hex_decode", a[0]),
+                       impl=lambda a: BytesUtils.FromHexString(a[0]), direct=d_unhex),
+})
+
+
+def boundary_ints():
+    out = {0, 1, 2, 127, 128, 255, 256, 257}
+    for k in (1, 2, 3, 4, 7, 8, 9, 16, 20, 31, 32, 33, 64, 65):
+        for d in (-1, 0, 1):
+            out.add(256 ** k + d)
+    for k in (6, 7, 8, 14, 15, 16, 30, 63, 64, 127, 128, 255, 256, 536):
+        for d in (-1, 0, 1):
+            out.add(2 ** k + d)
+    return sorted(out)
+
+
+def gen_intbytes(ctx):
+    rng = ctx.rng
+    ints = boundary_ints()
+    for v in ints:
+        ctx.run("bytes_number", [v], "boundary", trivial=(v == 0))
+        for big in (0, 1):
+            ctx.run("int_to_bytes", [v, 0, big], "auto")
+            k = max(1, (v.bit_length() + 7) // 8)
+            for w in {1, 2, k - 1, k, k + 1, k + 3} - {0}:
+                ctx.run("int_to_bytes", [v, w, big], "fixed")
+        for pad in (0, 1, 8, v.bit_length(), v.bit_length() + 1, 11, 32):
+            ctx.run("int_to_binstr", [v, pad], "boundary")
+    for v in (-1, -2, -255, -256, -2 ** 64):
+        ctx.run("bytes_number", [v], "negative")
+        for w in (0, 1, 9):
+            ctx.run("int_to_bytes", [v, w, 1], "negative")
+    for v in range(0, 1025):
+        ctx.run("bytes_number", [v], "small")
+        ctx.run("int_to_bytes", [v, 0, v & 1], "small")
+        ctx.run("int_to_binstr", [v, v % 13], "small")
+    # all byte strings of length 0..2 through every bytes-side helper
+    two = range(65536) if not ctx.quick else list(range(0, 300)) + [rng.randrange(65536) for _ in range(300)]
+    small = [b""] + [bytes([x]) for x in range(256)] + [x.to_bytes(2, "big") for x in two]
+    for b in small:
+        triv = (b == b"")
+        for big in (0, 1):
+            ctx.run("bytes_to_int", [b, big], "len0-2", trivial=triv)
+        ctx.run("hex_encode", [b], "len0-2", trivial=triv)
+        ctx.run("bytes_to_binstr", [b, 8 * len(b)], "len0-2", trivial=triv)
+        ctx.run("bytes_to_binstr", [b, 0], "len0-2", trivial=triv)
+        s = BytesUtils.ToBinaryStr(b, 8 * len(b))
+        ctx.run("bytes_from_binstr", [s, 2 * len(b)], "len0-2", trivial=triv)
+        ctx.run("bytes_from_binstr", [s, 0], "len0-2-nopad", trivial=triv)
+        ctx.run("int_from_binstr", [s], "len0-2", trivial=triv)
+    # all hex strings of length <= 2 over an extended character set, then every single char
+    hx = "0123456789abcdefABCDEFgG xX-_\x00é"
+    ctx.run("hex_decode", [""], "len0", trivial=True)
+    for c in hx:
+        ctx.run("hex_decode", [c], "len1")
+        for d in hx:
+            ctx.run("hex_decode", [c + d], "len2")
+    for c in range(0, 256):
+        ctx.run("hex_decode", [chr(c) + "0"], "allchars")
+        ctx.run("int_from_binstr", [chr(c)], "allchars")
+        ctx.run("int_from_binstr", ["1" + chr(c) + "1"], "allchars")
+        ctx.run("int_from_binstr", [chr(c) + "1"], "allchars")
+    ctx.note_exhaustive("IntegerUtils/BytesUtils: all byte strings of length 0..1 (2 in thorough) through ToInteger, "
+                        "ToHexString, ToBinaryStr/FromBinaryStr; all integers 0..1024; all single characters 0..255 "
+                        "in FromHexString / FromBinaryStr positions")
+    # int() grammar of FromBinaryStr: directed
+    for s in ["", " ", "0", "1", "01", "0b1", "0B1", "0b", "0b_1", "0b__1", "_1", "1_", "1_0", "1__0", "+1", "-1",
+              "+-1", "- 1", " 1 ", "\t1\n", "\x0b1\x0c", "1 1", "2", "0b2", "0x1", "0o1", "1\x00", " 1", "١",
+              "１", "-0", "-0b101", "+0B1_0", "0_b1", "00b1", "1" * 70, "0" * 70 + "1", "1_" * 20 + "1", "--1",
+              " +1_0_1 ", "0b 1", "0b-1", "b1", "\ud800"]:
+        ctx.run("int_from_binstr", [s], "grammar")
+        ctx.run("bytes_from_binstr", [s, 0], "grammar")
+        ctx.run("bytes_from_binstr", [s, 4], "grammar")
+    for _ in range(ctx.n(300, 5000)):
+        b = rand_bytes(rng, 80)
+        big = rng.randrange(2)
+        ctx.run("bytes_to_int", [b, big], "rand")
+        ctx.run("hex_encode", [b], "rand")
+        h = BytesUtils.ToHexString(b)
+        t = list(h.upper() if rng.randrange(3) == 0 else h)
+        k = rng.randrange(4)
+        if t and k == 0:
+            t[rng.randrange(len(t))] = rng.choice("gG xzé\U0001F600:")
+        elif k == 1:
+            t.insert(rng.randrange(len(t) + 1), rng.choice("0aF"))
+        elif t and k == 2:
+            del t[rng.randrange(len(t))]
+        ctx.run("hex_decode", ["".join(t)], "mutated")
+        pad = rng.choice([0, 8 * len(b), 8 * len(b) + 3, rng.randrange(64)])
+        ctx.run("bytes_to_binstr", [b, pad], "rand")
+        s = BytesUtils.ToBinaryStr(b, pad)
+        ctx.run("bytes_from_binstr", [s, rng.choice([0, 2 * len(b), 2 * len(b) + 1, 2 * len(b) + 2])], "rand")
+        v = rng.getrandbits(rng.choice([1, 7, 8, 9, 16, 31, 32, 33, 64, 65, 128, 256, 521]))
+        w = rng.choice([0, 0, 1, 2, 4, 8, 16, 32, 33, (v.bit_length() + 7) // 8, (v.bit_length() + 7) // 8 + 1])
+        ctx.run("int_to_bytes", [v, w, big], "rand")
+        ctx.run("bytes_number", [v], "rand")
+        ctx.run("int_to_binstr", [v, rng.randrange(300)], "rand")
+        bs = list(IntegerUtils.ToBinaryStr(v, rng.randrange(40)))
+        k = rng.randrange(5)
+        if k == 0:
+            bs.insert(rng.randrange(len(bs) + 1), rng.choice("_ 2b+-\t"))
+        elif k == 1:
+            bs = list(rng.choice([" ", "", "+", "-", "0b", "0B", " -0b_"])) + bs + list(rng.choice(["", " ", "\n", "_"]))
+        ctx.run("int_from_binstr", ["".join(bs)], "mutated")
+
+
+# ------------------------------------------------------------------ Bech32 ConvertBits
+def regroup_ref(data, fb, tb, pad):
+    """Reference regrouping on a bit string (BIP-173 convertbits semantics)."""
+    if any(v < 0 or v >> fb for v in data):
+        return None
+    bits = "".join(format(v, "0%db" % fb) for v in data) if fb else ""
+    full, rem = divmod(len(bits), tb)
+    out = [int(bits[i * tb:(i + 1) * tb], 2) for i in range(full)]
+    tail = bits[full * tb:]
+    if pad:
+        if tail:
+            out.append(int(tail.ljust(tb, "0"), 2))
+    elif len(tail) >= fb or (tail and int(tail, 2) != 0):
+        return None
+    return out
+
+
+def d_to32(a):
+    data, = a
+    data = list(data)
+    try:
+        r = Bech32BaseUtils.ConvertToBase32(data)
+    except ValueError:
+        return None if any(v >> 8 for v in data) else "ConvertToBase32 rejected bytes %r" % (data,)
+    if r != regroup_ref(data, 8, 5, True):
+        return "ConvertToBase32(%r) = %r, expected %r" % (data, r, regroup_ref(data, 8, 5, True))
+    back = Bech32BaseUtils.ConvertFromBase32(r)
+    return None if back == data else "ConvertFromBase32(ConvertToBase32(b)) = %r != %r" % (back, data)
+
+
+def d_from32(a):
+    data, = a
+    data = list(data)
+    ref = regroup_ref(data, 5, 8, False)
+    try:
+        r = Bech32BaseUtils.ConvertFromBase32(data)
+    except ValueError:
+        return None if ref is None else "ConvertFromBase32 rejected canonical %r" % (data,)
+    if ref is None or r != ref:
+        return "ConvertFromBase32(%r) = %r, expected %r" % (data, r, ref)
+    again = Bech32BaseUtils.ConvertToBase32(r)
+    return None if again == data else "accepted 5-bit data %r re-encodes to %r" % (data, again)
+
+
+def d_convert_bits(a):
+    data, fb, tb, pad = a
+    r = Bech32BaseUtils.ConvertBits(list(data), fb, tb, bool(pad))
+    ref = regroup_ref(list(data), fb, tb, bool(pad))
+    return None if r == ref else "ConvertBits(%r, %d, %d, %r) = %r, expected %r" % (list(data), fb, tb, bool(pad), r, ref)
+
+
+def _optlist(r):
+    return [] if r is None else [T(r)]
+
+
+FUNCS.update({
+    "to_base32": Func(model=lambda m, a: m.call("to_base32", a[0]),
+                      impl=lambda a: T(Bech32BaseUtils.ConvertToBase32(list(a[0]))), direct=d_to32),
+    "from_base32": Func(model=lambda m, a: m.call("from_base32", a[0]),
+                        impl=lambda a: T(Bech32BaseUtils.ConvertFromBase32(list(a[0]))), direct=d_from32),
+    "convert_bits": Func(model=lambda m, a: m.call("convert_bits", a[0], a[1], a[2], a[3]),
+                         impl=lambda a: _optlist(Bech32BaseUtils.ConvertBits(list(a[0]), a[1], a[2], bool(a[3]))),
+                         direct=d_convert_bits),
+})
+
+
+def gen_convertbits(ctx):
+    rng = ctx.rng
+    two = range(65536) if not ctx.quick else list(range(0, 300)) + [rng.randrange(65536) for _ in range(400)]
+    small = [b""] + [bytes([x]) for x in range(256)] + [x.to_bytes(2, "big") for x in two]
+    for b in small:
+        ctx.run("to_base32", [b], "len0-2", trivial=(b == b""))
+    # all 5-bit strings of length 0..2 (32 + 32*32) and a slice of length 3..4, strict direction
+    ctx.run("from_base32", [b""], "len0", trivial=True)
+    for x in range(32):
+        ctx.run("from_base32", [bytes([x])], "sym1")
+        for y in range(32):
+            ctx.run("from_base32", [bytes([x, y])], "sym2")
+    for _ in range(ctx.n(400, 8000)):
+        n = rng.choice([3, 4, 5, 7, 8, 9, 13, 16, 32, 33, 52, 53])
+        l = bytes(rng.randrange(32) for _ in range(n))
+        ctx.run("from_base32", [l], "rand5")
+        # force zero padding so that acceptance is also sampled at every length
+        good = Bech32BaseUtils.ConvertToBase32(bytes(rng.randrange(256) for _ in range(n)))
+        ctx.run("from_base32", [bytes(good)], "valid")
+        bad = list(good)
+        bad[-1] ^= 1 << rng.randrange(5)
+        ctx.run("from_base32", [bytes(bad)], "padbit")
+        ctx.run("from_base32", [bytes(good) + bytes([0])], "overlong")
+    # out-of-range symbols
+    for v in (32, 33, 255, 256, 1 << 40):
+        ctx.run("from_base32", [[1, v, 2]], "range")
+        ctx.run("to_base32", [[1, v + 224, 2]], "range")
+    ctx.note_exhaustive("ConvertToBase32: all byte strings of length 0..1 (2 in thorough); ConvertFromBase32: all "
+                        "5-bit symbol strings of length 0..2 (32 + 32x32)")
+    for _ in range(ctx.n(300, 5000)):
+        b = rand_bytes(rng, 90)
+        ctx.run("to_base32", [b], "rand")
+        fb, tb = rng.choice([(8, 5), (5, 8), (8, 11), (11, 8), (1, 8), (8, 1), (3, 7), (7, 3), (6, 6), (13, 4), (4, 13)])
+        data = [rng.randrange(1 << fb) for _ in range(rng.randrange(12))]
+        if rng.randrange(8) == 0 and data:
+            data[rng.randrange(len(data))] = (1 << fb) + rng.randrange(5)
+        ctx.run("convert_bits", [data, fb, tb, rng.randrange(2)], "generic")
+
+
+# ------------------------------------------------------------------ Base32
+RFC32 = "ABCDEFGHIJKLMNOPQRSTUVWXYZ234567"
+CUSTOMS = [None,
+           "abcdefghijklmnopqrstuvwxyz234567",          # Filecoin / Nano style lower case
+           "13456789abcdefghijkmnopqrstuwxyz",          # Nano
+           "0123456789ABCDEFGHJKMNPQRSTVWXYZ",          # Crockford
+           "ZYXWVUTSRQPONMLKJIHGFEDCBA765432",          # permutation of the RFC alphabet
+           "αβγδεζηθικλμνξοπ"
+           "ρστυφχψωабвгдежз"]   # non-ASCII
+BAD_CUSTOMS = ["abc", "", RFC32 + "8", "AACDEFGHIJKLMNOPQRSTUVWXYZ234567", "=BCDEFGHIJKLMNOPQRSTUVWXYZ234567"]
+
+
+def _copt(c):
+    return [] if c is None else [c]
+
+
+def b32_ref(b, alph=RFC32):
+    """RFC 4648 section 6 from the text: 40-bit groups, 5 bits per character, '=' to a multiple of 8."""
+    bits = "".join(format(x, "08b") for x in b)
+    bits += "0" * (-len(bits) % 5)
+    out = "".join(alph[int(bits[i:i + 5], 2)] for i in range(0, len(bits), 5))
+    return out + "=" * (-len(out) % 8)
+
+
+def d_b32enc(a):
+    b, ci = a
+    c = (CUSTOMS + BAD_CUSTOMS)[ci]
+    try:
+        e = Base32Encoder.Encode(b, c)
+        n = Base32Encoder.EncodeNoPadding(b, c)
+    except ValueError:
+        return None if (c is not None and len(c) != 32) else "Encode raised ValueError for alphabet %r" % c
+    if c is None or (len(set(c)) == 32 and "=" not in c):
+        want = b32_ref(b, c or RFC32)
+        if e != want or n != want.rstrip("="):
+            return "Base32 of %s = %r / %r, RFC 4648 gives %r" % (b.hex(), e, n, want)
+        for t in (e, n):
+            d = Base32Decoder.Decode(t, c)
+            if d != b:
+                return "Base32 decode(%r) = %s != %s" % (t, d.hex(), b.hex())
+    return None
+
+
+FUNCS.update({
+    "b32_encode": Func(model=lambda m, a: m.call("b32_encode", a[0], _copt((CUSTOMS + BAD_CUSTOMS)[a[1]])),
+                       impl=lambda a: Base32Encoder.Encode(a[0], (CUSTOMS + BAD_CUSTOMS)[a[1]]), direct=d_b32enc),
+    "b32_encode_nopad": Func(model=lambda m, a: m.call("b32_encode_nopad", a[0], _copt((CUSTOMS + BAD_CUSTOMS)[a[1]])),
+                             impl=lambda a: Base32Encoder.EncodeNoPadding(a[0], (CUSTOMS + BAD_CUSTOMS)[a[1]])),
+    "b32_decode": Func(model=lambda m, a: m.call("b32_decode", a[0], _copt((CUSTOMS + BAD_CUSTOMS)[a[1]])),
+                       impl=lambda a: Base32Decoder.Decode(a[0], (CUSTOMS + BAD_CUSTOMS)[a[1]])),
+})
+
+
+def gen_base32(ctx):
+    rng = ctx.rng
+    allc = CUSTOMS + BAD_CUSTOMS
+    two = range(65536) if not ctx.quick else list(range(0, 200)) + [rng.randrange(65536) for _ in range(300)]
+    small = [b""] + [bytes([x]) for x in range(256)] + [x.to_bytes(2, "big") for x in two]
+    for b in small:
+        for ci in ((0, 1) if ctx.quick else range(len(CUSTOMS))):
+            ctx.run("b32_encode", [b, ci], "len0-2", trivial=(b == b""))
+            ctx.run("b32_encode_nopad", [b, ci], "len0-2", trivial=(b == b""))
+    # every length mod 5, every alphabet (valid and invalid)
+    for n in range(0, 16):
+        for ci in range(len(allc)):
+            for fill in (b"\x00", b"\xff", None):
+                b = fill * n if fill else bytes(rng.randrange(256) for _ in range(n))
+                ctx.run("b32_encode", [b, ci], "lenmod5", trivial=(n == 0))
+                ctx.run("b32_encode_nopad", [b, ci], "lenmod5", trivial=(n == 0))
+                if allc[ci] is None or len(allc[ci]) == 32:
+                    e = Base32Encoder.Encode(b, allc[ci])
+                    ctx.run("b32_decode", [e, ci], "valid", trivial=(n == 0))
+                    ctx.run("b32_decode", [e.rstrip("="), ci], "valid-nopad", trivial=(n == 0))
+    # decoder acceptance: all strings of length <= 2 over a mixed character set, every pad count, trailing bits
+    chars = "AZ27a=1 é"
+    ctx.run("b32_decode", ["", 0], "len0", trivial=True)
+    for c in chars:
+        ctx.run("b32_decode", [c, 0], "len1")
+        for d in chars:
+            ctx.run("b32_decode", [c + d, 0], "len2")
+    for c in RFC32:
+        for d in RFC32:
+            ctx.run("b32_decode", [c + d, 0], "sym2")            # non-zero trailing bits are accepted by b32decode
+    for k in range(0, 9):
+        for p in range(0, 18):
+            ctx.run("b32_decode", ["B" * k + "=" * p, 0], "padcount")
+            ctx.run("b32_decode", ["7" * k + "=" * p, 1], "padcount")
+    ctx.note_exhaustive("Base32: all byte strings of length 0..1 (2 in thorough) x alphabets; every length 0..15; decoder on all "
+                        "2-symbol strings and every (symbols 0..8) x (pad count 0..17)")
+    for _ in range(ctx.n(300, 5000)):
+        b = rand_bytes(rng, 70)
+        ci = rng.randrange(len(CUSTOMS))
+        ctx.run("b32_encode", [b, ci], "rand")
+        ctx.run("b32_encode_nopad", [b, ci], "rand")
+        e = Base32Encoder.Encode(b, CUSTOMS[ci])
+        t = list(e if rng.randrange(2) else e.rstrip("="))
+        k = rng.randrange(6)
+        alph = CUSTOMS[ci] or RFC32
+        if t and k == 0:
+            t[rng.randrange(len(t))] = rng.choice(alph)
+        elif t and k == 1:
+            t[rng.randrange(len(t))] = rng.choice("=018 aéA")
+        elif k == 2:
+            t.insert(rng.randrange(len(t) + 1), rng.choice(alph + "="))
+        elif t and k == 3:
+            del t[rng.randrange(len(t))]
+        elif k == 4:
+            t = t[:rng.randrange(len(t) + 1)]
+        ctx.run("b32_decode", ["".join(t), ci], "mutated")
+        ctx.run("b32_decode", ["".join(t), rng.randrange(len(allc))], "mutated-otheralph")
+
+
+# ------------------------------------------------------------------ SS58
+def b58_ref(b):
+    n = int.from_bytes(b, "big")
+    out = ""
+    while n:
+        n, r = divmod(n, 58)
+        out = B58[r] + out
+    return "1" * (len(b) - len(b.lstrip(b"\x00"))) + out
+
+
+def ss58_ref(data, fmt):
+    """SS58 from the Substrate address-format description; None when the arguments are not encodable."""
+    if len(data) != 32 or not (0 <= fmt <= 16383) or fmt in (46, 47):
+        return None
+    if fmt < 64:
+        pre = bytes([fmt])
+    else:
+        pre = bytes([0x40 + (fmt % 256) // 4, fmt // 256 + (fmt % 4) * 64])
+    payload = pre + data
+    return b58_ref(payload + hashlib.blake2b(b"SS58PRE" + payload, digest_size=64).digest()[:2])
+
+
+def d_ss58_enc(a):
+    data, fmt = a
+    want = ss58_ref(data, fmt)
+    try:
+        s = SS58Encoder.Encode(data, fmt)
+    except ValueError:
+        return None if want is None else "SS58 Encode(%s, %d) raised ValueError" % (data.hex(), fmt)
+    if want is None or s != want:
+        return "SS58 Encode(%s, %d) = %r, expected %r" % (data.hex(), fmt, s, want)
+    f, d = SS58Decoder.Decode(s)
+    return None if (f, d) == (fmt, data) else "SS58 Decode(Encode(data, %d)) = (%d, %s)" % (fmt, f, d.hex())
+
+
+def d_ss58_dec(a):
+    s, = a
+    try:
+        f, d = SS58Decoder.Decode(s)
+    except Exception:  # noqa  (error classes are compared by the correspondence, not here)
+        return None
+    e = ss58_ref(d, f)
+    return None if e == s else "accepted SS58 string %r = (%d, %s) re-encodes to %r" % (s, f, d.hex(), e)
+
+
+FUNCS.update({
+    "ss58_encode": Func(model=lambda m, a: m.call("ss58_encode", a[0], Z(a[1])),
+                        impl=lambda a: SS58Encoder.Encode(a[0], a[1]), direct=d_ss58_enc),
+    "ss58_decode": Func(model=lambda m, a: m.call("ss58_decode", a[0]),
+                        impl=lambda a: list(SS58Decoder.Decode(a[0])), direct=d_ss58_dec),
+})
+
+
+def ss58_raw(payload, good_ck=True):
+    ck = hashlib.blake2b(b"SS58PRE" + payload, digest_size=64).digest()[:2]
+    if not good_ck:
+        ck = bytes([ck[0] ^ 1, ck[1]])
+    return b58_ref(payload + ck)
+
+
+def gen_ss58(ctx):
+    rng = ctx.rng
+    fixed = bytes(range(32))
+    # all formats 0..16383 (and the neighbours of the range) through the encoder
+    for fmt in range(-2, 16390):
+        ctx.run("ss58_encode", [fixed, fmt], "allformats")
+    ctx.note_exhaustive("SS58: all formats -2..16389 through Encode (with the round trip as direct check); Decode on all "
+                        "formats in thorough, every 16th plus all boundaries in quick")
+    for fmt in range(0, 16384):
+        if not ctx.quick or fmt % 16 == 0 or fmt in (45, 46, 47, 48, 62, 63, 64, 65, 127, 128, 255, 256, 257, 16382, 16383):
+            if fmt not in (46, 47):
+                ctx.run("ss58_decode", [ss58_ref(fixed, fmt)], "allformats")
+    # data lengths
+    for n in (0, 1, 31, 33, 64):
+        ctx.run("ss58_encode", [bytes(n), 0], "datalen")
+        ctx.run("ss58_encode", [bytes(n), 1000], "datalen")
+    # decoder: every header shape on well-checksummed raw payloads (F3 classes: empty, one byte, reserved first byte,
+    # two-byte encodings of one-byte formats, reserved formats, wrong data length)
+    ctx.run("ss58_decode", [""], "empty", trivial=True)
+    for raw in (b"", b"\x00", b"\x2a", b"\x40", b"\x80", b"\xff", b"\x00\x00", b"\x40\x00"):
+        ctx.run("ss58_decode", [b58_ref(raw)], "short")
+        ctx.run("ss58_decode", [ss58_raw(raw)], "short")
+    for b0 in range(256):
+        for n in (31, 32, 33):
+            ctx.run("ss58_decode", [ss58_raw(bytes([b0]) + bytes(n))], "firstbyte")
+        ctx.run("ss58_decode", [ss58_raw(bytes([b0, rng.randrange(256)]) + fixed)], "firstbyte")
+    for b0 in range(64, 128):
+        for b1 in ((0, 1, 63, 64, 65, 128, 192, 255) if ctx.quick else range(256)):
+            ctx.run("ss58_decode", [ss58_raw(bytes([b0, b1]) + fixed)], "twobyte")
+            ctx.run("ss58_decode", [ss58_raw(bytes([b0, b1]) + fixed, good_ck=False)], "twobyte-badck")
+    for _ in range(ctx.n(300, 5000)):
+        data = bytes(rng.randrange(256) for _ in range(32))
+        fmt = rng.choice([0, 2, 42, 45, 48, 63, 64, 65, 255, 256, 1284, 16383, rng.randrange(16384)])
+        ctx.run("ss58_encode", [data, fmt], "rand")
+        s = ss58_ref(data, fmt) or ss58_ref(data, 0)
+        ctx.run("ss58_decode", [s], "valid")
+        t = list(s)
+        k = rng.randrange(5)
+        if k == 0:
+            t[rng.randrange(len(t))] = rng.choice(B58)
+        elif k == 1:
+            t[rng.randrange(len(t))] = rng.choice("0OIl+/ éK\U0001F600")
+        elif k == 2:
+            t.insert(rng.randrange(len(t) + 1), rng.choice(B58))
+        elif k == 3:
+            del t[rng.randrange(len(t))]
+        else:
+            t = t[:rng.randrange(len(t) + 1)]
+        ctx.run("ss58_decode", ["".join(t)], "mutated")
+
+
+# ------------------------------------------------------------------ SCALE
+UENC = [SubstrateScaleU8Encoder, SubstrateScaleU16Encoder, SubstrateScaleU32Encoder, SubstrateScaleU64Encoder,
+        SubstrateScaleU128Encoder, SubstrateScaleU256Encoder]
+UBITS = [8, 16, 32, 64, 128, 256]
+
+
+def scale_compact_ref_decode(b):
+    """SCALE compact decoding from the specification: (value, rest) or None."""
+    if not b:
+        return None
+    mode = b[0] & 3
+    if mode == 0:
+        return b[0] >> 2, b[1:]
+    if mode in (1, 2):
+        k = 2 if mode == 1 else 4
+        return (int.from_bytes(b[:k], "little") >> 2, b[k:]) if len(b) >= k else None
+    k = (b[0] >> 2) + 4
+    return (int.from_bytes(b[1:1 + k], "little"), b[1 + k:]) if len(b) >= 1 + k else None
+
+
+def scale_compact_ref(v):
+    """SCALE compact encoding from the specification."""
+    if v < 2 ** 6:
+        return bytes([v << 2])
+    if v < 2 ** 14:
+        return ((v << 2) | 1).to_bytes(2, "little")
+    if v < 2 ** 30:
+        return ((v << 2) | 2).to_bytes(4, "little")
+    k = (v.bit_length() + 7) // 8
+    return bytes([((k - 4) << 2) | 3]) + v.to_bytes(k, "little")
+
+
+def d_scale_uint(a):
+    k, v = a
+    try:
+        b = UENC[k].Encode(v)
+    except ValueError:
+        return None if not (0 <= v < 2 ** UBITS[k]) else "U%d Encode(%d) raised ValueError" % (UBITS[k], v)
+    if not (0 <= v < 2 ** UBITS[k]):
+        return "U%d Encode(%d) accepted an out-of-range value" % (UBITS[k], v)
+    ok = len(b) == UBITS[k] // 8 and int.from_bytes(b, "little") == v
+    return None if ok else "U%d Encode(%d) = %s" % (UBITS[k], v, b.hex())
+
+
+def d_scale_compact(a):
+    v, = a
+    if not (0 <= v < 2 ** 536):
+        return None            # error classes are checked by the correspondence
+    b = SubstrateScaleCUintEncoder.Encode(v)
+    if b != scale_compact_ref(v):
+        return "compact Encode(%d) = %s, SCALE gives %s" % (v, b.hex(), scale_compact_ref(v).hex())
+    tail = b"\xaa\x55"
+    return None if scale_compact_ref_decode(b + tail) == (v, tail) else "compact encoding of %d does not decode back" % v
+
+
+def d_scale_bytes(a):
+    b, = a
+    e = SubstrateScaleBytesEncoder.Encode(b)
+    r = scale_compact_ref_decode(e + b"\x01")
+    ok = r is not None and r[0] == len(b) and r[1] == b + b"\x01"
+    return None if ok else "bytes Encode(%s) = %s" % (b.hex(), e.hex())
+
+
+FUNCS.update({
+    "scale_uint": Func(model=lambda m, a: m.call("scale_uint", a[0], Z(a[1])),
+                       impl=lambda a: UENC[a[0]].Encode(a[1]), direct=d_scale_uint),
+    "scale_compact": Func(model=lambda m, a: m.call("scale_compact", Z(a[0])),
+                          impl=lambda a: SubstrateScaleCUintEncoder.Encode(a[0]), direct=d_scale_compact),
+    "scale_bytes": Func(model=lambda m, a: m.call("scale_bytes", a[0]),
+                        impl=lambda a: SubstrateScaleBytesEncoder.Encode(a[0]), direct=d_scale_bytes),
+    # model decoder against the reference decoder (no library counterpart)
+    "scale_compact_decode": Func(model=lambda m, a: m.call("scale_compact_decode", a[0]),
+                                 impl=lambda a: _must(scale_compact_ref_decode(a[0]))),
+})
+
+
+def _must(r):
+    if r is None:
+        raise ValueError("truncated")
+    return [r[0], r[1]]
+
+
+def gen_scale(ctx):
+    rng = ctx.rng
+    edges = set()
+    for k in (0, 1, 2, 6, 7, 8, 14, 15, 16, 24, 30, 31, 32, 63, 64, 65, 127, 128, 129, 255, 256, 257, 528, 535, 536, 537):
+        for d in (-2, -1, 0, 1, 2):
+            edges.add(2 ** k + d)
+    edges |= {-1, -2, -64, -2 ** 64}
+    for v in sorted(edges):
+        ctx.run("scale_compact", [v], "threshold", trivial=(v == 0))
+        if 0 <= v < 2 ** 536:
+            ctx.run("scale_compact_decode", [scale_compact_ref(v) + b"\x07"], "threshold")
+        for k in range(6):
+            ctx.run("scale_uint", [k, v], "threshold", trivial=(v == 0))
+    for v in range(0, 70000 if not ctx.quick else 1300):
+        ctx.run("scale_compact", [v], "small", trivial=(v == 0))
+    for v in range(16000, 16800):
+        ctx.run("scale_compact", [v], "around-2^14")
+    for v in range(0, 300):
+        ctx.run("scale_uint", [0, v], "u8")
+    # compact decoder (model) on every first byte and truncations
+    for b0 in range(256):
+        for n in (0, 1, 2, 3, 4, 5, 66, 67, 68):
+            ctx.run("scale_compact_decode", [bytes([b0]) + bytes(range(1, n + 1))], "firstbyte")
+    two = range(65536) if not ctx.quick else list(range(0, 300)) + [rng.randrange(65536) for _ in range(300)]
+    for b in [b""] + [bytes([x]) for x in range(256)] + [x.to_bytes(2, "big") for x in two]:
+        ctx.run("scale_bytes", [b], "len0-2", trivial=(b == b""))
+    for n in (62, 63, 64, 65, 100, 255, 256, 1000, 16383, 16384, 16385, 70000):
+        ctx.run("scale_bytes", [bytes(n)], "lenthreshold")
+    ctx.note_exhaustive("SCALE: compact integers 0..1299 (0..69999 in thorough) and +-2 around every power of two that "
+                        "matters; bytes of length 0..1 (2 in thorough); model compact decoder on every first byte")
+    for _ in range(ctx.n(300, 5000)):
+        v = rng.getrandbits(rng.choice([3, 6, 7, 13, 14, 15, 29, 30, 31, 32, 64, 128, 256, 400, 535, 536, 537, 600]))
+        ctx.run("scale_compact", [v], "rand")
+        k = rng.randrange(6)
+        ctx.run("scale_uint", [k, rng.getrandbits(UBITS[k] + rng.choice([-1, 0, 0, 0, 1]) if UBITS[k] > 1 else 1)], "rand")
+        ctx.run("scale_bytes", [rand_bytes(rng, 300)], "rand")
+
+
+# ------------------------------------------------------------------ CBOR indefinite-length array
+def cbor_uint_ref(n):
+    """RFC 8949 major type 0, preferred (shortest) serialisation."""
+    if n < 24:
+        return bytes([n])
+    for info, k in ((24, 1), (25, 2), (26, 4), (27, 8)):
+        if n < 256 ** k:
+            return bytes([info]) + n.to_bytes(k, "big")
+    raise ValueError("not a uint64")
+
+
+def _cbor_item(e):
+    """Canonical form of a decoded element: ints stay ints, other cbor2 objects are identified by their byte."""
+    import cbor2
+    if type(e) is int:
+        return Z(e)
+    table = {bytes: 0x40, str: 0x60, list: 0x80, dict: 0xa0}
+    if type(e) in table and len(e) == 0:
+        return [table[type(e)]]
+    if e is False:
+        return [0xf4]
+    if e is True:
+        return [0xf5]
+    if e is None:
+        return [0xf6]
+    if e is cbor2.undefined:
+        return [0xf7]
+    if isinstance(e, cbor2.CBORSimpleValue):
+        return [0xe0 + e.value]
+    raise TypeError("unexpected decoded element %r" % (e,))
+
+
+def d_cbor_enc(a):
+    l, = a
+    e = CborIndefiniteLenArrayEncoder.Encode(l)
+    if all(0 <= x < 2 ** 64 for x in l):
+        want = b"\x9f" + b"".join(cbor_uint_ref(x) for x in l) + b"\xff"
+        if e != want:
+            return "CBOR Encode(%r) = %s, RFC 8949 gives %s" % (l, e.hex(), want.hex())
+        try:
+            d = CborIndefiniteLenArrayDecoder.Decode(e)
+        except ValueError as ex:
+            return "CBOR Decode(Encode(%r)) raised ValueError: %s" % (l, ex)
+        if d != l:
+            return "CBOR Decode(Encode(%r)) = %r" % (l, d)
+    return None
+
+
+def cbor_empty_array(fn, args, record):
+    """Finding C11-CBOR-EMPTY: only the empty array -- the direct round-trip check on Encode([]) and the model/
+    implementation divergence on Decode(9fff) (model: [], implementation: ValueError 'Invalid length (2)')."""
+    if fn == "cbor_encode" and record.get("kind") == "direct":
+        return list(args[0]) == []
+    if fn == "cbor_decode" and record.get("kind") == "divergence":
+        return bytes(args[0]) == b"\x9f\xff" and record.get("impl") == {"err": "ValueError"}
+    return False
+
+
+def cbor_empty_array_replay():
+    e = CborIndefiniteLenArrayEncoder.Encode([])
+    try:
+        d = CborIndefiniteLenArrayDecoder.Decode(e)
+    except ValueError as ex:
+        return "Decode(Encode([])) = Decode(%s) raises ValueError (%s)" % (e.hex(), ex)
+    return None if d == [] else "Decode(Encode([])) = %r" % (d,)
+
+
+FUNCS.update({
+    "cbor_encode": Func(model=lambda m, a: m.call("cbor_encode", [Z(x) for x in a[0]]),
+                        impl=lambda a: CborIndefiniteLenArrayEncoder.Encode(a[0]), direct=d_cbor_enc),
+    "cbor_decode": Func(model=lambda m, a: m.call("cbor_decode", a[0]),
+                        impl=lambda a: [_cbor_item(e) for e in CborIndefiniteLenArrayDecoder.Decode(a[0])]),
+})
+
+
+def gen_cbor(ctx):
+    rng = ctx.rng
+    edges = sorted({0, 1, 22, 23, 24, 25, 254, 255, 256, 257, 65534, 65535, 65536, 65537, 2 ** 31, 2 ** 32 - 1, 2 ** 32,
+                    2 ** 32 + 1, 2 ** 63, 2 ** 64 - 2, 2 ** 64 - 1})
+    ctx.run("cbor_encode", [[]], "empty", trivial=True)
+    for v in edges:
+        ctx.run("cbor_encode", [[v]], "threshold", trivial=(v == 0))
+        ctx.run("cbor_encode", [[v, v]], "threshold")
+        ctx.run("cbor_encode", [[0, v, 2 ** 31 + 5]], "threshold")
+        ctx.run("cbor_decode", [b"\x9f" + cbor_uint_ref(v) + b"\xff"], "threshold")
+    for v in (2 ** 64, 2 ** 64 + 1, 2 ** 200, -1, -24, -25, -256, -2 ** 64, -2 ** 64 - 1):
+        ctx.run("cbor_encode", [[v]], "outside-uint64")        # bignum / negative encodings of cbor2 (model only claims uints)
+    for v in range(0, 300):
+        ctx.run("cbor_encode", [[v]], "small")
+    # decoder: every byte as a one-byte element, every byte after each uint marker, every short input
+    for b in range(256):
+        ctx.run("cbor_decode", [bytes([0x9f, b, 0xff])], "onebyte")
+        ctx.run("cbor_decode", [bytes([0x9f, b])], "onebyte-noend")
+        ctx.run("cbor_decode", [bytes([b, 0x00, 0xff])], "firstbyte")
+        ctx.run("cbor_decode", [bytes([0x9f, 0x00, b])], "lastbyte")
+        for mk, k in ((0x18, 1), (0x19, 2), (0x1a, 4), (0x1b, 8)):
+            ctx.run("cbor_decode", [bytes([0x9f, mk]) + bytes([b]) * k + b"\xff"], "marker")
+    for mk, k in ((0x18, 1), (0x19, 2), (0x1a, 4), (0x1b, 8)):
+        for n in range(0, k + 2):
+            ctx.run("cbor_decode", [bytes([0x9f, mk]) + b"\x01" * n + b"\xff"], "truncated")
+            ctx.run("cbor_decode", [bytes([0x9f, mk]) + b"\xff" * n + b"\xff"], "truncated-ff")
+    for raw in (b"", b"\x9f", b"\x9f\xff", b"\xff\xff\xff", b"\x9f\xff\xff", b"\x9f\xff\x00\xff", b"\x9f\x01\xff\x02\xff",
+                b"\x9f\x18\x05\xff", b"\x9f\x19\x00\x05\xff", b"\x9f\x1b" + bytes(8) + b"\xff"):
+        ctx.run("cbor_decode", [raw], "directed", trivial=(raw == b""))
+    two = range(65536) if not ctx.quick else list(range(0, 200)) + [rng.randrange(65536) for _ in range(300)]
+    for x in two:
+        ctx.run("cbor_decode", [b"\x9f" + x.to_bytes(2, "big") + b"\xff"], "twobytes")
+    ctx.note_exhaustive("CBOR array: every byte value as a one-byte element, as first/last byte and after each uint marker; "
+                        "all uint thresholds +-1; 2-byte bodies (all in thorough)")
+    for _ in range(ctx.n(300, 5000)):
+        l = [rng.getrandbits(rng.choice([1, 4, 5, 8, 9, 16, 17, 31, 32, 33, 63, 64])) for _ in range(rng.randrange(1, 6))]
+        ctx.run("cbor_encode", [l], "rand")
+        e = bytearray(CborIndefiniteLenArrayEncoder.Encode(l))
+        ctx.run("cbor_decode", [bytes(e)], "valid")
+        k = rng.randrange(4)
+        if k == 0:
+            e[rng.randrange(len(e))] = rng.randrange(256)
+        elif k == 1:
+            del e[rng.randrange(len(e))]
+        elif k == 2:
+            e.insert(rng.randrange(len(e) + 1), rng.choice([0x18, 0x19, 0x1a, 0x1b, 0xff, 0x00, 0x9f]))
+        else:
+            e = e[:rng.randrange(len(e) + 1)]
+        ctx.run("cbor_decode", [bytes(e)], "mutated")
+
+
 def rand_bytes(rng, maxlen=200):
     k = rng.choice([0, 0, 1, 2, 3])
     n = rng.choice([0, 1, 2, 3, 4, 5, 8, 16, 20, 21, 25, 32, 33, 37, 64, 65, 78, 82, rng.randrange(maxlen)])
@@ -65,6 +1009,17 @@ def rand_bytes(rng, maxlen=200):
 
 
 def generate(ctx):
+    gen_b58(ctx)
+    gen_xmr(ctx)
+    gen_intbytes(ctx)
+    gen_convertbits(ctx)
+    gen_base32(ctx)
+    gen_ss58(ctx)
+    gen_scale(ctx)
+    gen_cbor(ctx)
+
+
+def gen_b58(ctx):
     rng = ctx.rng
     alph_s = ["123456789ABCDEFGHJKLMNPQRSTUVWXYZabcdefghijkmnopqrstuvwxyz",
               "rpshnaf39wBUDNEGHJKLM4PQRST7VWXYZ2bcdeCg65jkm8oFqi1tuvAxyz"]
